@@ -232,7 +232,10 @@ def main(run):
             if t % 2 == 1:
                 r = rng.random()
                 plain = [n for n, b in tab if not b]
-                if r < 0.35 and plain:
+                if t == 1 and pdn:
+                    # corpus (every run, every model): a dispersity keyword that merely BEGINS like a known one
+                    kind = "misspelt"; keys[pdn[0] + ["_pd_nsigmas", "_pd_width", "_pd_types", "_pd_npts"][len(name) % 4]] = 1.0
+                elif r < 0.35 and plain:
                     kind = "suffix-on-plain"; keys[rng.choice(plain) + rng.choice(["_pd", "_pd_n", "_pd_nsigma", "_pd_type"])] = 0.1
                 elif r < 0.5:
                     kind = "foreign"; keys[rng.choice(["radius_bogus", "len", "sld_core_x", "q", "cutoff", "volfraction2", "pd", "_pd", ""])] = 1.0
